@@ -1,0 +1,28 @@
+//go:build verif
+
+// Package verifx re-exports internal packages for the external verification
+// harness.  Every file in this package carries the "verif" build tag, so the
+// package does not exist in ordinary builds.
+package verifx
+
+import (
+	"bufio"
+
+	"capnproto.org/go/capnp/v3/internal/packed"
+	"capnproto.org/go/capnp/v3/internal/strquote"
+)
+
+// Pack is packed.Pack.
+func Pack(dst, src []byte) []byte { return packed.Pack(dst, src) }
+
+// Unpack is packed.Unpack.
+func Unpack(dst, src []byte) ([]byte, error) { return packed.Unpack(dst, src) }
+
+// PackedReader is packed.Reader.
+type PackedReader = packed.Reader
+
+// NewPackedReader is packed.NewReader.
+func NewPackedReader(r *bufio.Reader) *PackedReader { return packed.NewReader(r) }
+
+// Quote is strquote.Append.
+func Quote(buf, s []byte) []byte { return strquote.Append(buf, s) }
